@@ -2805,3 +2805,118 @@ func c01R14(c *Ctx, r *Report) {
 	}
 	r.Floor(rule, len(keys), 3, "intrinsic builtins")
 }
+
+// ---- C01.R15: QBE constant folding respects the operation's width ---------------------------------------------
+
+func init() {
+	lateInits = append(lateInits, func() {
+		props["C01"].Quick = append(props["C01"].Quick, c01R15)
+		props["C13"].Quick = append(props["C13"].Quick, c01R15)
+		props["C01"].Explanation += " (R15) in the embedded QBE's foldint the cases whose result depends on the high bits of a word-class operand (div, rem, udiv, urem, sar, shr, shl) consult the width flag, and signed division/remainder never reach C's `/` `%` with a divisor of -1 (SIGFPE on INT_MIN)."
+	})
+}
+
+func c01R15(c *Ctx, r *Report) {
+	const rule = "C01.R15"
+	r.Describe(rule, "qbe/fold.c foldint: the switch cases Odiv/Orem/Oudiv/Ourem/Osar/Oshr/Oshl mention the width parameter w (directly or in an if before the operation); the signed division and remainder operators are evaluated under a test that the divisor is not -1")
+	cf := cLoad(c, r, rule, "qbe/fold.c")
+	if cf == nil {
+		return
+	}
+	fn := cf.Funcs["foldint"]
+	if !r.Anchor(rule, fn != nil && len(fn.Params()) >= 3, "qbe/fold.c:foldint(res, op, w, …)") {
+		return
+	}
+	wName := fn.Params()[2].Name
+	// collect the statements of each case group of the top-level switch on op
+	want := map[string]bool{"Odiv": true, "Orem": true, "Oudiv": true, "Ourem": true, "Osar": true, "Oshr": true, "Oshl": true}
+	found := map[string]bool{}
+	var walkSwitch func(sw *CNode)
+	walkSwitch = func(sw *CNode) {
+		body := sw.Inner[len(sw.Inner)-1]
+		var labels []string
+		var group []*CNode
+		flush := func() {
+			if len(labels) == 0 {
+				return
+			}
+			mentionsW, guardsMinusOne, signedOp := false, false, false
+			for _, st := range group {
+				st.Walk(func(x *CNode) bool {
+					if x.Kind == "DeclRefExpr" && x.Ref == wName {
+						mentionsW = true
+					}
+					if x.Kind == "BinaryOperator" && (x.Opcode == "/" || x.Opcode == "%") && strings.Contains(x.Src(), ".s") {
+						signedOp = true
+					}
+					if x.Kind == "BinaryOperator" && (x.Opcode == "==" || x.Opcode == "!=") && strings.Contains(x.Src(), "-1") {
+						guardsMinusOne = true
+					}
+					return true
+				})
+			}
+			for _, l := range labels {
+				if !want[l] {
+					continue
+				}
+				found[l] = true
+				r.Check(mentionsW, rule, "fold.c:foldint", "case "+l+" depends on the operation's width", c.cpos(cf, group[0]),
+					"the word-class operation is folded on all 64 bits of the constants: `(d + d) / 2` with d: u32 = 3000000000 folds to 3000000000 although the sum wraps to 1705032704 at run time")
+				if l == "Odiv" || l == "Orem" {
+					r.Check(!signedOp || guardsMinusOne, rule, "fold.c:foldint", "case "+l+" does not divide by -1 with the C operator", c.cpos(cf, group[0]),
+						"INT64_MIN / -1 and INT64_MIN % -1 raise SIGFPE in C: the compiler process dies while folding `big % one`")
+				}
+			}
+		}
+		var visit func(n *CNode)
+		visit = func(n *CNode) {
+			switch n.Kind {
+			case "CaseStmt":
+				// a new label: if the previous group already had statements, it ended (QBE cases end in break)
+				if len(group) > 0 {
+					flush()
+					labels, group = nil, nil
+				}
+				if len(n.Inner) > 0 {
+					lab := n.Inner[0]
+					lab.Walk(func(x *CNode) bool {
+						if x.Kind == "DeclRefExpr" && x.Ref != "" {
+							labels = append(labels, x.Ref)
+						}
+						return true
+					})
+					visit(n.Inner[len(n.Inner)-1])
+				}
+			case "DefaultStmt":
+				flush()
+				labels, group = nil, nil
+			case "BreakStmt":
+				group = append(group, n)
+				flush()
+				labels, group = nil, nil
+			default:
+				if len(labels) > 0 {
+					group = append(group, n)
+				}
+			}
+		}
+		for _, st := range body.Inner {
+			visit(st)
+		}
+		flush()
+	}
+	fn.Walk(func(x *CNode) bool {
+		if x.Kind == "SwitchStmt" && len(x.Inner) >= 2 && strings.Contains(x.Inner[len(x.Inner)-2].Src(), "op") {
+			walkSwitch(x)
+			return false
+		}
+		return true
+	})
+	n := 0
+	for l := range want {
+		if found[l] {
+			n++
+		}
+	}
+	r.Floor(rule, n, 7, "width-sensitive cases of foldint")
+}
